@@ -515,7 +515,21 @@ def run(ck):
         ck.checker_cmds.append("cd /verif/coq && " + cmd)
         rc, out = common.sh(cmd, cwd=common.COQ, timeout=1000)
         ck.notes["coqchk"] = out[-600:]
-        if rc != 0 or "* Axioms: <none>" not in out:
+        # the statements over R (C13_real_dx / C13_real_dS) rest on the standard library's real-number and classical axioms;
+        # anything else in the list is not ours to use
+        allowed = {"Coq.Logic.FunctionalExtensionality.functional_extensionality_dep", "Coq.Reals.ClassicalDedekindReals.sig_not_dec",
+                   "Coq.Reals.ClassicalDedekindReals.sig_forall_dec", "Coq.Logic.Classical_Prop.classic"}
+        listed, on = set(), False
+        for line in out.splitlines():
+            if line.startswith("* Axioms:"):
+                on = "<none>" not in line
+                continue
+            if line.startswith("* "):
+                on = False
+            if on and line.strip():
+                listed.add(line.strip())
+        ck.notes["coqchk_axioms"] = sorted(listed)
+        if rc != 0 or "* Axioms:" not in out or not listed <= allowed:
             ck.broken.append(dict(theorem="coqchk Props/C13.vo", file="Props/C13.vo", error=out[-1200:]))
     run_K(ck)
     run_search(ck)
